@@ -4,7 +4,14 @@ use super::path::path_to_string;
 
 #[inline]
 pub(crate) fn meta_name_value_2_isize(name_value: &MetaNameValue) -> syn::Result<isize> {
-    match &name_value.value {
+    let mut value = &name_value.value;
+
+    // a value forwarded through a `macro_rules!` fragment (e.g. `$v:expr`) is wrapped in invisible groups
+    while let Expr::Group(group) = value {
+        value = group.expr.as_ref();
+    }
+
+    match value {
         Expr::Lit(lit) => match &lit.lit {
             Lit::Str(lit) => {
                 return lit
